@@ -48,7 +48,7 @@ func (e *Env) healthyOG(gen any) (any, bool) {
 // NewEnv builds the world, installs the hook program, builds the controller
 // and creates the parent.
 func NewEnv(scn *Scn, f Factory) (*Env, error) {
-	w := NewWorld()
+	w := NewWorldDiscovery(scn.Cfg.SubresourcesFirst)
 	common.VerifResetSSACache()
 	if scn.Cfg.SSA {
 		w.Sim.TrackManagedFields = true
